@@ -524,6 +524,10 @@ def run(ctx):
             # destructor body has to unlink every handle, whatever its state (C06.b decides exactly that)
             from rules import C06
             C06.c06b(ctx, tu)
+            # a watched object may be moved / assigned to: the monitor's back-reference stays valid only if nobody but
+            # the monitor writes the object's slot (C13.a decides who does)
+            from rules import C13
+            C13.c13a(ctx, tu)
         n_coro += c14f(ctx, tu)
         units.append({"unit": tu.name, "functions": len(tu.fns)})
     ctx.floor("C14.a classified pointer-like members", len(seen), 25)
